@@ -382,8 +382,43 @@ func runC18(c *ctxT) {
 	}
 }
 
+// distCases calls the comparison functions of distance.go directly on keys of
+// mixed lengths (reference shorter / longer than the compared keys, shared prefixes, ties)
+func distCases(c *ctxT, r *gen.R) {
+	n := c.scale(500, 12000)
+	for i := 0; i < n; i++ {
+		x := r.Bytes(r.Intn(6))
+		mk := func() []byte {
+			k := r.Bytes(r.Intn(6))
+			p := r.Intn(len(x) + 1) // share a prefix of x, possibly all of it
+			for j := 0; j < p && j < len(k); j++ {
+				k[j] = x[j]
+			}
+			if len(k) > 0 && r.Intn(3) == 0 {
+				k[r.Intn(len(k))] ^= byte(1 << uint(r.Intn(8)))
+			}
+			return k
+		}
+		a, b := mk(), mk()
+		switch r.Intn(6) {
+		case 0:
+			b = append([]byte{}, a...)
+		case 1: // same distance on the reference's length, different lengths beyond it
+			b = append(append([]byte{}, a...), r.Bytes(1+r.Intn(2))...)
+		case 2:
+			if len(a) > len(x) {
+				b = append(append([]byte{}, a[:len(x)]...), r.Bytes(len(a)-len(x))...)
+			}
+		}
+		c.emit(sx.L(sx.S("dist"), sx.B(x), sx.B(a), sx.B(b)),
+			sx.L(sx.I(kademlia.DistanceCmp(x, a, b)+1), sx.I(kademlia.DistanceLz(a, b)), sx.I(kademlia.LeadingZeros(x))))
+		c.count("dist")
+	}
+}
+
 func runC19(c *ctxT) {
 	r := c.rng
+	distCases(c, c.rng.Fork())
 	nHist := c.scale(300, 8000)
 	for h := 0; h < nHist; h++ {
 		var locus []byte
